@@ -9,6 +9,30 @@ CHECKS = {
    technique=TECH + "seeded op-history simulation of Window<T> (pushes, observers, iterator splits, restart/rebuild through every export path, storage-fault injection on the serialized form) against a VecDeque reference model, op by op",
    text="Seeded search over operation histories on the real Window<T>; every observer is compared with a VecDeque model after every op; thorough stratifies the capacity over every value 0..=254 (0..=4094 would need the u16 build, see C20) so the capacity dimension is complete while phases/observer choices are sampled. A clean batch is evidence, not proof.",
    note="Trusted: the VecDeque model, the simfmt serializer/deserializer written for this task, catch_unwind classification of documented panics. Labels stand for all element values (parametricity)."),
+ "C02": dict(level="exploration", design="§4 C02, §3.2",
+   technique=TECH + "seeded fault-feed streams (stuck feed, ties, spikes, scale jumps, gaps, signed zeros) through the real finite-window methods; per-step refinement against from-scratch reference models with a tracked rounding allowance (reduced fit: no schedule exists in this property)",
+   text="Per-step refinement of every finite-window method against its documented formula on the last `length` inputs, two-sided, within the frozen allowance D(t)=c_m*u*(n+t)*S. Thorough stratifies half of the runs over every length; streams up to 10^4 ticks. Samples the stream space; a clean batch is evidence, not proof.",
+   note="Trusted: reference models written from the doc comments (DESIGN.md App. A), Neumaier-compensated f64 sums, drift constants frozen after calibration (10x worst observed, power of two)."),
+ "C03": dict(level="exploration", design="§4 C03, §3.3",
+   technique=TECH + "same engine as C02; oracle = free-running documented recurrence as tracked numbers (contraction of the error for exponential kinds, interval rule where Vidya's Chande factor is 0/0 or residue/residue)",
+   text="Per-step refinement of the recursive methods against their recurrences on the whole stream so far; flat-after-movement regimes are injected on purpose. Samples streams and lengths (WSMA 1..127, TSI pairs, all others 1..254).",
+   note="Trusted: reference recurrences (App. A); for Vidya the factor is only required to lie in [0,1] where its definition is 0/0."),
+ "C04": dict(level="exploration", design="§4 C04",
+   technique=TECH + "order-pattern feeds (small alphabets incl. both zeros, saw-teeth of period n-1/n/n+1, monotone runs, equal extrema spaced n apart, stuck feed) through the real selection methods; exact comparison with from-scratch max/min/arg/median",
+   text="Exact (up to the sign of zero) comparison of Highest, Lowest, HighestLowestDelta, HighestIndex, LowestIndex, SMM and MedianAbsDev's median with the from-scratch selection at every step.",
+   note="Trusted: the from-scratch selection over a VecDeque of the last n inputs."),
+ "C14": dict(level="exploration", design="§4 C14",
+   technique=TECH + "pairs of streams with touches/equal series/zero base for the crossing detectors and streams longer than 4*PeriodType::MAX with plateaus and saw-teeth for the reversal detectors; exact comparison with the from-scratch detector",
+   text="Exact comparison of Cross/CrossAbove/CrossUnder and Upper/Lower/ReversalSignal with their definitional detectors at every step, including positions beyond PeriodType::MAX.",
+   note="Trusted: the reference detectors (newest-wins tie rule as documented in DESIGN.md App. A)."),
+ "C09": dict(level="exploration", design="§4 C09, §2.5",
+   technique=TECH + "two-run discipline: run A = new+next per element; run B = seeded schedule of delivery events (chunk boundaries incl. empty chunks, batch API per chunk: over/call/apply/into_fn/new_over/new_apply/IndicatorConfig::over/init_fn/dyn over), peeks, forks with interleaved different continuations; bitwise comparison per tick per replica",
+   text="Seeded search over delivery schedules and clone points for every method, wrapper, MA-dispatched instance and indicator; any schedule-dependent difference is a bit-level mismatch. Samples schedules; not exhaustive.",
+   note="Trusted: run A as the reference behaviour (its own correctness is C02-C06); the scheduler; catch_unwind."),
+ "C13": dict(level="fault_enumeration", design="§4 C13, §2.4",
+   technique=TECH + "crash/restart through a fault-injecting serde seam: for each seeded (SUT, configuration, stream) the crash point is enumerated (snapshot after j ticks for every j in 0..=2n+3 through tree / byte codec / JSON), the restored replica must continue bit-identically; serializer failure injected at every call index; storage faults (truncate, bit flip, window index/buffer damage, dropped field, NaN) on snapshots must be rejected or yield no panic",
+   text="The crash-point dimension is enumerated completely for every drawn (SUT, parameters); SUT/parameters/streams are seeded. Covers every method with serde, MAInstance and all 36 indicators, configs and small value types.",
+   note="Trusted: simfmt serializer/deserializer and byte codec written for this task (self-checked round trip), serde_json as a second carrier."),
 }
 NA = {
  "C16": "Action algebra is a total, stateless algebra over a finite domain: no history, state, fault, replica or schedule for a simulator to drive; the fitting technique (exhaustive enumeration) is model checking, which this task excludes (DESIGN.md §5).",
